@@ -42,6 +42,23 @@ Theorem C11_finalize_requires_the_requested_recipients_signature :
 Proof. exact finalize_requires_proof. Qed.
 Print Assumptions C11_finalize_requires_the_requested_recipients_signature.
 
+(** ... whatever state the reply is labelled with: a send for which a proof was requested is
+    only ever finalized by a reply in the standard send's state, so the check above cannot be
+    side-stepped by relabelling the reply as an invoice's (before the [fix:] the Invoice2 branch
+    ran without any proof check; a recipient who first planted a received entry under the slate
+    id got a proof-less finalization). *)
+Theorem C11_proof_requested_only_a_standard_reply_finalizes :
+  forall (chal : Z -> Z -> kmsg -> Z) (derive : N -> N -> Z) (sk pk esig : Type)
+         (pk_eqb : pk -> pk -> bool) (pub : sk -> pk) (sign : sk -> emsg pk -> esig)
+         (verify : pk -> emsg pk -> esig -> bool) (addr_sk : N -> N -> sk)
+         (w : wallet pk esig) (r : slate pk esig) (c : ctxrec pk) (i : N)
+         (w' : wallet pk esig) (t : tx),
+      lookup_ctx pk esig w (sl_id r) = Some c -> cx_pp_index c = Some i ->
+      finalize_tx chal derive sk pk esig pk_eqb pub sign verify addr_sk w r = (w', Ok t) ->
+      sl_state r = StS2.
+Proof. exact finalize_with_proof_only_standard. Qed.
+Print Assumptions C11_proof_requested_only_a_standard_reply_finalizes.
+
 (** Hence: a reply with the proof stripped, without signature, naming another recipient,
     signed by another key, or signed over other values is refused. *)
 Theorem C11_forged_reply_proof_is_refused :
